@@ -179,6 +179,23 @@ class ExprMixin:
             raise Unsupported("membership in a positional list")
         raise Unsupported(f"`in` on {c.ty}")
 
+    def bag_of(self, v, p):
+        """list(x) as a bag of its elements (x a node tuple or already a bag)."""
+        if isinstance(v.ty, T.Bag):
+            return v
+        if v.ty == T.TUP:
+            bt = T.Bag(T.INT)
+            b = fresh("bagoftup", bt.sort())
+            n = fresh("n", T.I)
+            tcount = z3.Function("tcount", T.TupS, T.I, T.I)     # number of occurrences of n in the tuple
+            self._assume(p, z3.ForAll([n], b[n] == tcount(v.t, n), patterns=[b[n]]))
+            self._assume(p, z3.ForAll([n], z3.And(tcount(v.t, n) >= 0, (tcount(v.t, n) >= 1) == TH.tmem(v.t, n),
+                                                  z3.Implies(TH.distinct_t(v.t), tcount(v.t, n) <= 1)),
+                                      patterns=[tcount(v.t, n), TH.tmem(v.t, n)]))
+            self._assume(p, bt.blen()(b) == TH.tlen(v.t))
+            return T.scalar(bt, b)
+        raise Unsupported(f"list of {v.ty}")
+
     def equal(self, a, b, p):
         if a.ty == T.NONE or b.ty == T.NONE:
             o = b if a.ty == T.NONE else a
@@ -201,6 +218,10 @@ class ExprMixin:
             b = self.coerce(b, a.ty)
         if a.ty != b.ty:
             raise Unsupported(f"== between {a.ty} and {b.ty}")
+        if a.ty == T.STR:
+            known = list(self.strs.values())
+            if any(a.t.eq(k) for k in known) and any(b.t.eq(k) for k in known):
+                return z3.BoolVal(a.t.eq(b.t))      # two string literals
         if a.ty.scalar:
             return a.t == b.t
         if isinstance(a.ty, T.Map):
@@ -246,6 +267,12 @@ class ExprMixin:
         raise Unsupported(f"name {e.id} at line {e.lineno}")
 
     def ev_Attribute(self, e, p):
+        if e.attr == "__name__" and isinstance(e.value, ast.Call) and isinstance(e.value.func, ast.Name) and e.value.func.id == "type" \
+                and len(e.value.args) == 1:
+            o = self.ev(e.value.args[0], p)
+            if isinstance(o.ty, T.Obj):
+                return self.str_const(o.ty.cls)
+            raise Unsupported("type(x).__name__ of a non-object")
         base = self.ev(e.value, p)
         if isinstance(base.ty, T.Obj):
             if e.attr not in base.fields:
@@ -392,6 +419,19 @@ class ExprMixin:
                 raise Unsupported("set operator")
             self._assume(p, z3.ForAll([x], out[x] == body, patterns=[out[x]]))
             return T.scalar(st, out)
+        if isinstance(op, ast.Add) and (l.ty == T.TUP or isinstance(l.ty, T.Bag)) and (r.ty == T.TUP or isinstance(r.ty, T.Bag)):
+            # list concatenation, order not modelled: multiset union
+            lb, rb = self.bag_of(l, p), self.bag_of(r, p)
+            if lb.ty != rb.ty:
+                raise Unsupported("concatenation of lists of different element types")
+            bt = lb.ty
+            x = fresh("x", bt.e.sort())
+            out = fresh("concat", bt.sort())
+            self._assume(p, z3.ForAll([x], out[x] == lb.t[x] + rb.t[x], patterns=[out[x]]))
+            self._assume(p, bt.blen()(out) == bt.blen()(lb.t) + bt.blen()(rb.t))
+            return T.scalar(bt, out)
+        if l.ty == T.BOOL and r.ty == T.BOOL and isinstance(op, (ast.BitAnd, ast.BitOr)):
+            return T.sv_bool(z3.And(l.t, r.t) if isinstance(op, ast.BitAnd) else z3.Or(l.t, r.t))
         l, r = self.unopt(l, p, note), self.unopt(r, p, note)
         if l.ty not in (T.INT, T.REAL, T.BOOL) or r.ty not in (T.INT, T.REAL, T.BOOL):
             raise Unsupported(f"arithmetic on {l.ty}, {r.ty}")
